@@ -17,7 +17,7 @@ META = {
                    "E_{N(m,diag C)} log N(y|f,R) and log_marginal = log N(y|m,diag C+R) elementwise, for all real inputs.",
     "bounds": {"quick": "N<=3, t=2, batch shapes (), (2,), likelihood batch x distribution batch broadcast; ranks 0,1",
                "thorough": "N<=3, t<=3, ranks 0..t, all global/task switches, both layouts, batch pairs over {(),(2,),(2,1)x(1,2)}"},
-    "outside": ["DirichletClassificationLikelihood target transformation", "heteroskedastic noise models (a second GP)", "rounding"],
+    "outside": ["DirichletClassificationLikelihood fantasy likelihoods", "heteroskedastic noise beyond an exact-GP noise model with N<=3 inputs", "rounding"],
     "assumptions": ["reals for floats", "softplus below its linear threshold", "function covariance declared by Cholesky factor"],
 }
 TIMEOUT_S = {"quick": 420, "thorough": 2400}
@@ -112,6 +112,108 @@ def single(S, N, kind, lbs, dbs, call_noise):
         ref_l[idx] = -((y_ - m_) * (y_ - m_)) / (s * Sym.const(2.0)) - sym_log(sd) - Sym.const(LOG_SQRT_2PI)
     S.prove_eq(elp, ref_e, "expected_log_prob")
     S.prove_eq(lm, ref_l, "log_marginal")
+
+
+def heteroskedastic(S, N, nn, noise_model_training):
+    """HeteroskedasticNoise: R = diag(transform(posterior mean of the noise GP at the inputs)), evaluated in the noise model's
+       EVALUATION mode whatever mode it is in (restored afterwards), added once; call-time noise replaces it"""
+    from gpytorch.likelihoods.noise_models import HeteroskedasticNoise
+    from gpytorch.likelihoods.gaussian_likelihood import _GaussianLikelihoodBase
+    from symten import sym_softplus
+    from .common import TableKernel, StubGP, labels, make_mean, spd_solve, eye
+    NN = nn + N  # noise-model training labels 0..nn-1, the likelihood is evaluated at labels nn..nn+N-1
+    Hs, Hc = S.factor("h", NN)
+    tab = torch.zeros(NN, NN)
+    nl = GaussianLikelihood()
+    yn = S.randn(nn); Yn = S.sym_tensor(yn, "ynoise")
+    noise_gp = StubGP(labels(0, nn), yn, nl, TableKernel(tab), make_mean("constant"))
+    declare_params(S, noise_gp.mean_module, "nm_", scale=0.5)
+    declare_params(S, nl, "nl_", scale=0.3)
+    for p in noise_gp.parameters():
+        p.requires_grad_(False)
+    lik = _GaussianLikelihoodBase(HeteroskedasticNoise(noise_gp))
+    mean, Ms, C, Cs = _dist(S, N, ())
+    y = S.randn(N); Ys = S.sym_tensor(y, "y")
+    X = labels(nn, NN)
+    with S.mode():
+        s2 = as_sym_arr(SH.get(nl.noise)).reshape(-1)[0]
+        J = Hs @ Hs.T
+        Kn = J.copy()
+        with torch.no_grad():
+            tab.copy_(Hc @ Hc.T)
+        for i in range(nn):
+            Kn[i, i] = Kn[i, i] - s2
+            with torch.no_grad():
+                tab[i, i] -= s2.c
+        SH.put(tab, Kn, check=True)
+        c = as_sym_arr(SH.get(noise_gp.mean_module.constant)).reshape(-1)[0]
+        noise_gp.train(noise_model_training); nl.train(noise_model_training)
+        d = MultivariateNormal(mean, C)
+        marg = lik(d, X)
+        mc = marg.covariance_matrix
+        elp = lik.expected_log_prob(y, d, X)
+        S.check_concrete(noise_gp.training == noise_model_training, "noise model's mode restored after the call")
+        cn = S.rand(N, lo=0.05, hi=0.5)
+        Ns = S.sym_tensor(cn, "callnoise", positive=True)
+        mc2 = lik(d, X, noise=cn).covariance_matrix
+    # noise GP posterior mean at X (explicit conditional), then the documented GreaterThan(1e-4) transform
+    alpha = spd_solve(Hs[:nn, :nn], (Yn - c).reshape(nn, 1))
+    mu = (Kn[nn:, :nn] @ alpha).reshape(-1) + c
+    R = np.array([sym_softplus(mu[i]) + Sym.const(1e-4) for i in range(N)], dtype=object)
+    Rm = np.empty((N, N), dtype=object)
+    for i in range(N):
+        for j in range(N):
+            Rm[i, j] = R[i] if i == j else Sym.const(0.0)
+    S.prove_eq(mc, Cs + Rm, "heteroskedastic marginal.cov = C + diag(softplus(noise-GP posterior mean) + 1e-4)")
+    ref_e = np.array([(((Ys[i] - Ms[i]) ** 2 + Cs[i, i]) / R[i] + sym_log(R[i]) + Sym.const(LOG2PI)) * Sym.const(-0.5) for i in range(N)], dtype=object)
+    S.prove_eq(elp, ref_e, "heteroskedastic expected_log_prob")
+    Rm2 = Rm.copy()
+    for i in range(N):
+        Rm2[i, i] = Ns[i]
+    S.prove_eq(mc2, Cs + Rm2, "call-time noise replaces the heteroskedastic noise")
+
+
+def dirichlet(S, learn):
+    """DirichletClassificationLikelihood: stored noise / transformed targets = the documented functions of alpha = alpha_eps + onehot
+       (alpha_eps symbolic), marginal adds that noise per class [+ learned noise]; call-time `targets` use the SAME alpha_eps"""
+    from gpytorch.likelihoods import DirichletClassificationLikelihood
+    targets = torch.tensor([0, 1, 1])
+    N, C = 3, 2
+    eps = torch.tensor(0.07)
+    E = S.sym_tensor(eps, "alpha_eps", positive=True)[()]
+    with S.mode():
+        lik = DirichletClassificationLikelihood(targets, alpha_epsilon=eps, learn_additional_noise=learn, dtype=torch.float64)
+        noise_t = lik.noise_covar.noise.clone()
+        tt = lik.transformed_targets.clone()
+    declare_params(S, lik, "lik_")
+    mean, Ms, Cc, Cs = _dist(S, N, (C,))
+    new_targets = torch.tensor([1, 0, 1])
+    with S.mode():
+        d = MultivariateNormal(mean, Cc)
+        mc = lik(d).covariance_matrix
+        mc2 = lik(d, targets=new_targets).covariance_matrix
+        extra = as_sym_arr(SH.get(lik.second_noise)).reshape(-1) if learn else None
+    def expect(tg):
+        sig = np.empty((C, N), dtype=object)
+        trg = np.empty((C, N), dtype=object)
+        for c in range(C):
+            for i in range(N):
+                a = E + Sym.const(1.0) if int(tg[i]) == c else E
+                sig[c, i] = sym_log(Sym.const(1.0) / a + Sym.const(1.0))
+                trg[c, i] = sym_log(a) - sig[c, i] * Sym.const(0.5)
+        return sig, trg
+    sig, trg = expect(targets)
+    S.prove_eq(noise_t, sig, "Dirichlet label noise = log(1/alpha + 1), class-major")
+    S.prove_eq(tt, trg, "Dirichlet transformed targets = log(alpha) - sigma^2/2, class-major")
+    def withnoise(sg):
+        R = Cs.copy()
+        for c in range(C):
+            for i in range(N):
+                R[c, i, i] = R[c, i, i] + sg[c, i] + (extra[c] if (learn and len(extra) == C) else (extra[0] if learn else Sym.const(0.0)))
+        return R
+    S.prove_eq(mc, withnoise(sig), "Dirichlet marginal.cov = C + diag(label noise)%s per class" % (" + learned noise" if learn else ""))
+    sig2, _ = expect(new_targets)
+    S.prove_eq(mc2, withnoise(sig2), "call-time targets: noise recomputed from the new labels with the likelihood's own alpha_eps")
 
 
 def multitask(S, n, t, rank, glob, task, inter, bs):
@@ -254,6 +356,10 @@ def scenarios(tier, seed):
         add("multitask", n=3, t=2, rank=1, glob=True, task=True, inter=True, bs=[])
         add("multitask", n=2, t=2, rank=0, glob=True, task=True, inter=False, bs=[2])
         add("likelihood_list", N1=2, N2=3)
+        add("dirichlet", learn=False)
+        add("dirichlet", learn=True)
+        add("heteroskedastic", N=2, nn=2, noise_model_training=False)
+        add("heteroskedastic", N=2, nn=1, noise_model_training=True)
     else:
         for kind in ("gaussian", "fixed", "fixed_learn"):
             for lbs, dbs in [([], []), ([2], [2]), ([], [2]), ([2], []), ([2, 1], [1, 2])]:
@@ -274,4 +380,9 @@ def scenarios(tier, seed):
             add("multitask", n=2, t=2, rank=1, glob=True, task=True, inter=inter, bs=[2])
         add("likelihood_list", N1=2, N2=3)
         add("likelihood_list", N1=3, N2=2)
+        add("dirichlet", learn=False)
+        add("dirichlet", learn=True)
+        for tr in (False, True):
+            add("heteroskedastic", N=2, nn=2, noise_model_training=tr)
+            add("heteroskedastic", N=3, nn=1, noise_model_training=tr)
     return out
